@@ -17,7 +17,9 @@ use std::path::{Path, PathBuf};
 use vharness::util::hex;
 use vharness::{driver, Args, Known, Report, Rng};
 
-const KINDS: u64 = 6;
+const KINDS: u64 = 8;
+/// kinds the PRNG generators draw from (kind 7, a 70 kB record, only appears in fixed cases)
+const RAND_KINDS: u64 = 7;
 
 #[derive(Clone, Debug, PartialEq)]
 enum Op {
@@ -123,6 +125,20 @@ fn mk_entry(kind: u64, tag: u64) -> WalEntry {
             target: 2,
             edge_type: "R".into(),
             properties: vec![],
+        },
+        6 => WalEntry::UpdateEdgeProperties {
+            // frame length > 255: the second byte of the length prefix is non-zero
+            tenant: "t".into(),
+            edge_id: tag,
+            properties: (0..300u32).map(|i| (i % 7) as u8).collect(),
+            version: 1,
+        },
+        7 => WalEntry::UpdateNodeProperties {
+            // frame length > 65535 and larger than the BufWriter buffer (written through without a flush)
+            tenant: "".into(),
+            node_id: tag,
+            properties: (0..70_000u32).map(|i| (i % 5) as u8).collect(),
+            version: 2,
         },
         _ => {
             // 12 payload bytes whose last four spell the checksum of the entry with the payload cut to 8
@@ -412,7 +428,8 @@ fn run_case(work: &Path, ops: &[Op], sel: &VarSel, rng: &mut Rng) -> CaseOut {
     let h = run_real(&dir, ops);
     let idx: HashMap<Vec<u8>, usize> = h.ents.iter().cloned().enumerate().map(|(i, e)| (e, i)).collect();
     let seq_of: HashMap<usize, u64> = h.app.iter().map(|(s, e)| (*e, *s)).collect();
-    let top = h.app.iter().map(|x| x.0).max().unwrap_or(0) + 1;
+    // `from` runs over every sequence handed out, one past it, and two past it (beyond the log)
+    let top = h.app.iter().map(|x| x.0).max().unwrap_or(0) + 2;
     let ents = show_ents(&h.ents);
     let mut notes = vec![];
     let mut panics = vec![];
@@ -616,6 +633,101 @@ fn main() {
     rep.count_n("corpus_cases", n_corpus);
 
     if args.replay.is_none() {
+        // 1b. a record torn at the start of a *fresh* segment (first segment, after a reopen, after a
+        //     checkpoint, after a crash, after a sync-on/off switch), cut inside the length prefix /
+        //     the sequence / the entry / one byte short, then restart + appends + restart
+        let contexts: Vec<Vec<Op>> = vec![
+            vec![],
+            vec![Op::Append(0), Op::Reopen],
+            vec![Op::Append(0), Op::Checkpoint],
+            vec![Op::Append(0), Op::Append(0), Op::Crash(0)],
+            vec![Op::Sync(true), Op::Append(0), Op::Sync(false)],
+            vec![Op::Append(0), Op::Checkpoint, Op::Crash(0)],
+        ];
+        let tails: Vec<Vec<Op>> = vec![
+            vec![Op::Append(0)],
+            vec![Op::Append(0), Op::Reopen, Op::Append(0)],
+            vec![Op::Append(0), Op::Flush, Op::Append(2), Op::Crash(500), Op::Append(0)],
+            vec![Op::Checkpoint, Op::Append(0)],
+        ];
+        let mut nfam = 0u64;
+        for cx in &contexts {
+            for pm in [0u64, 30, 60, 90, 120, 340, 500, 970, 1000] {
+                for tl in &tails {
+                    for first in [0u64, 2] {
+                        let mut s = cx.clone();
+                        s.push(Op::Append(first));
+                        s.push(Op::Crash(pm));
+                        s.extend(tl.iter().cloned());
+                        nfam += 1;
+                        cases.push((s, if nfam % 6 == 0 { VarSel::Sample } else { VarSel::None }));
+                    }
+                }
+            }
+        }
+        rep.count_n("family:torn-first-record-of-fresh-segment", nfam);
+        // 1b'. the same at *every* byte offset of the torn frame (36 bytes for entry kind 0), followed by
+        //      restart + append + restart + append: the log must keep growing behind a torn tail
+        let bases: Vec<Vec<Op>> = vec![
+            vec![],
+            vec![Op::Append(0), Op::Flush],
+            vec![Op::Append(0), Op::Checkpoint],
+            vec![Op::Append(2), Op::Reopen],
+        ];
+        let mut nevery = 0u64;
+        for b in &bases {
+            for k in 0..=36u64 {
+                let mut s = b.clone();
+                s.push(Op::Append(0));
+                s.push(Op::Crash((k * 1000 + 35) / 36));
+                s.extend([Op::Append(0), Op::Reopen, Op::Append(0)]);
+                nevery += 1;
+                cases.push((s, VarSel::None));
+            }
+        }
+        rep.count_n("family:torn-at-every-offset-then-append", nevery);
+        // 1c. long histories: segment names and sequences cross 0x0f -> 0x10 (and 0xff -> 0x100 in the
+        //     deep case), many files, `from` deep inside the log
+        let n_long = if args.thorough() { 200 } else { 30 };
+        for _ in 0..n_long {
+            let total = 17 + rng.usize(24);
+            let mut s = vec![];
+            let mut since = 0;
+            for _ in 0..total {
+                s.push(Op::Append(*rng.pick(&[0, 0, 1, 2, 4])));
+                since += 1;
+                if since >= 1 + rng.usize(6) {
+                    since = 0;
+                    s.push(match rng.below(6) {
+                        0 | 1 => Op::Reopen,
+                        2 => Op::Checkpoint,
+                        3 => Op::Crash(*rng.pick(&[0, 60, 500, 1000])),
+                        4 => Op::Flush,
+                        _ => Op::Sync(rng.chance(1, 2)),
+                    });
+                }
+            }
+            cases.push((s, VarSel::None));
+        }
+        rep.count_n("family:long-history", n_long);
+        {
+            let mut s = vec![];
+            for i in 1..=300u64 {
+                s.push(Op::Append(0));
+                if [15, 16, 17, 255, 256, 257].contains(&i) {
+                    s.push(Op::Reopen);
+                }
+                if i == 100 {
+                    s.push(Op::Checkpoint);
+                }
+            }
+            cases.push((s, VarSel::None));
+            // records larger than the BufWriter buffer / with 2- and 3-byte frame lengths
+            cases.push((vec![Op::Append(7), Op::Flush, Op::Append(0), Op::Reopen, Op::Append(7), Op::Crash(500), Op::Append(0)], VarSel::None));
+            cases.push((vec![Op::Append(0), Op::Append(7), Op::Crash(0), Op::Append(6), Op::Reopen, Op::Append(0)], VarSel::None));
+            cases.push((vec![Op::Append(6), Op::Append(0), Op::Checkpoint, Op::Append(6)], VarSel::Sample));
+            rep.count_n("family:deep-and-large", 4);
+        }
         // 2. exhaustive small scope: every history of length <= L over the alphabet (bare histories),
         //    every 9th with sampled variants
         let alpha = vec![
@@ -627,6 +739,7 @@ fn main() {
             Op::Crash(0),
             Op::Crash(500),
             Op::Sync(true),
+            Op::Sync(false),
         ];
         let lmax = if args.thorough() { 5 } else { 4 };
         let mut count = 0u64;
@@ -645,7 +758,7 @@ fn main() {
         }
         rep.exhaustive = true;
         rep.exhaustive_note = format!(
-            "every op history of length <= {} over {{append(2 entry kinds), flush, checkpoint, reopen, crash(0%|50% of the buffered bytes survive), sync on}} ({} histories, history specification + model image equality); image variants (truncation at every byte offset of the newest file — of every file in the thorough tier —, single-byte flips) on a subset of these and on PRNG histories (not exhaustive)",
+            "every op history of length <= {} over {{append(2 entry kinds), flush, checkpoint, reopen, crash(0%|50% of the buffered bytes survive), sync on, sync off}} ({} histories, history specification + model image equality); image variants (truncation at every byte offset of the newest file — of every file in the thorough tier —, single-byte flips) on a subset of these and on PRNG histories (not exhaustive)",
             lmax, count
         );
         // 3. PRNG histories with variants
@@ -655,7 +768,7 @@ fn main() {
             let mut s = vec![];
             for _ in 0..len {
                 s.push(match rng.below(16) {
-                    0..=7 => Op::Append(rng.below(KINDS)),
+                    0..=7 => Op::Append(rng.below(RAND_KINDS)),
                     8 => Op::Flush,
                     9 => Op::Checkpoint,
                     10 | 11 => Op::Reopen,
@@ -672,7 +785,20 @@ fn main() {
     // evaluate in chunks: real runs in threads, then the driver over all lines
     let threads = 8usize;
     let mut first_break: Option<(String, String)> = None;
-    for (ci, chunk) in cases.chunks(1500).enumerate() {
+    // a small first chunk (corpus + the first targeted cases), then chunks of 1500
+    let mut bounds = vec![0usize];
+    while *bounds.last().unwrap() < cases.len() {
+        let step = if bounds.len() == 1 { 120 } else { 1500 };
+        bounds.push((*bounds.last().unwrap() + step).min(cases.len()));
+    }
+    for (ci, w) in bounds.windows(2).enumerate() {
+        let chunk = &cases[w[0]..w[1]];
+        // the verdict is decided once five failing inputs are on record; on a broken tree the
+        // remaining cases only cost time (mis-framed logs make `replay` allocate garbage lengths)
+        if rep.spec_violations.len() >= 5 {
+            rep.notes.push(format!("stopped after {} of {} cases: five failing inputs recorded", w[0], cases.len()));
+            break;
+        }
         let seeds: Vec<u64> = chunk.iter().map(|_| rng.next_u64()).collect();
         let mut slots: Vec<Option<CaseOut>> = (0..chunk.len()).map(|_| None).collect();
         std::thread::scope(|sc| {
